@@ -89,6 +89,7 @@ class Registry:
         self.lemmas = {}
         self.assumed = {}         # external fqn -> Contract (assumed, never verified)
         self.spec_funcs = {}      # name -> (params, expr)
+        self.spec_rec = {}        # name -> (params [(name, type)], return type, body expr): recursive definitions
         self.scans = []
         self.closures = {}        # property id -> [fqn]
         self.notes = []
@@ -131,6 +132,11 @@ def invariant(cls, name, expr, props=()):
 def spec_function(name, params, expr):
     """pure spec function usable in clauses: name(params) == expr"""
     REG.spec_funcs[name] = (list(params), expr)
+
+
+def spec_rec(name, params, returns, body):
+    """recursive spec function (z3 RecFunction); list parameters are passed as their element array"""
+    REG.spec_rec[name] = (list(params), returns, body)
 
 
 def lemma(name, hyps=(), concl=None, vars=None, props=(), note=""):
